@@ -19,7 +19,8 @@ TECHNIQUE = "static analysis: path-sensitive MIR summaries with ordered effects 
 def configs(tier):
     if tier == "thorough":
         return facts.LIB_ALL
-    return facts.LIB_QUICK
+    # frontend without the counting features: the streaming code must not depend on another feature's cfg block (round-2 seeded change C19/fourth)
+    return facts.LIB_QUICK + [facts.Config("lib", ["frontend"])]
 
 
 def F_init(ctx, lib):
